@@ -7,10 +7,10 @@
   hypotheses discharged by `Snap.snapshot_correct_core`), the reference by `sortP` of the selected keys.
   Strictly increasing lists with the same members are equal (`StdfsL.sorted_unique`), so what remains is
   the membership comparison: Memfs selects by the ENTRY flags `dir` / `file`, the reference by the NODE
-  kind; the two differ exactly for links (the finding class `listing_includes_links`), so the comparison
-  is made under "no selected-depth key below the directory is a link" for `dirs` / `files` / `all_dirs` /
-  `all_files`, and unconditionally for `paths` / `all_paths`.  The walk of `all_*` stops at depth
-  `u64::MAX`; the reference does not: `DepthOk` for these three.
+  kind; since the repair of `listing_includes_links` the collecting loop of `dirs` / `files` / `all_dirs` /
+  `all_files` skips link entries, so "flag ∧ ¬link" on the Memfs side is exactly the node kind on the
+  reference side and the comparison needs no hypothesis about links any more.  The walk of `all_*` stops
+  at depth `u64::MAX`; the reference does not: `DepthOk` for these three.
 -/
 import Rivia.Lemmas.Snapshot
 import Rivia.Lemmas.Walk
@@ -90,7 +90,8 @@ theorem sim_listing (env : Env) (s : State) (p : Str) (all dirs files : Bool) (w
     (hD : all = true → RefineB.DepthOk s)
     (hW : ∀ a, resolve env (absS s) p = .ok a → ∀ k e, alLookup k s.entries = some e →
       isProperPrefix a k = true → (all = true ∨ k.length = a.length + 1) →
-      (want (absNode s k e) = true ↔ ((files = true → e.file = true) ∧ (dirs = true → files = false → e.dir = true)))) :
+      (want (absNode s k e) = true ↔ ((files = true → e.file = true ∧ e.link = false) ∧
+        (dirs = true → files = false → e.dir = true ∧ e.link = false)))) :
     Sim (mapVal .paths (Memfs.listing env p (mdOf all) dirs files) s) (listQ env (absS s) p all want) := by
   unfold listQ
   have habs := absM_eq env p s
@@ -154,5 +155,42 @@ theorem sim_listing (env : Env) (s : State) (p : Str) (all dirs files : Bool) (w
                 omega
         simp only [mapVal, h1, listing_ok_eq _ _ _ _ hd2, liftR]
         exact sim_same (by simp [heq])
+
+/-! ### the six helpers, no hypothesis about links -/
+
+/-- `dirs` / `all_dirs`: "directory flag and not a link" is the node kind `dir` -/
+theorem want_dirs_iff (s : State) (k : FsPath) (e : Entry) :
+    decide ((absNode s k e).kind = Kind.dir) = true ↔
+      ((false = true → e.file = true ∧ e.link = false) ∧ (true = true → false = false → e.dir = true ∧ e.link = false)) := by
+  have : (absNode s k e).kind = kindOf e := rfl
+  rw [decide_eq_true_iff, this, RefineA.kind_dir_iff]
+  simp
+
+/-- `files` / `all_files`: "file flag and not a link" is the node kind `file` (entries carry exactly one of
+    the two flags: `EntriesOk`) -/
+theorem want_files_iff {s : State} (hOk : RefineA.EntriesOk s) {k : FsPath} {e : Entry}
+    (he : alLookup k s.entries = some e) :
+    decide ((absNode s k e).kind = Kind.file) = true ↔
+      ((true = true → e.file = true ∧ e.link = false) ∧ (false = true → true = false → e.dir = true ∧ e.link = false)) := by
+  have : (absNode s k e).kind = kindOf e := rfl
+  rw [decide_eq_true_iff, this, RefineA.kind_file_iff (RefineA.entriesOk_lookup hOk he)]
+  simp
+
+theorem sim_paths (env : Env) (s : State) (p : Str) (all : Bool) (hI : Spec.Inv s) (hSo : Snap.Sorted s.entries)
+    (hD : all = true → RefineB.DepthOk s) :
+    Sim (mapVal .paths (Memfs.listing env p (mdOf all) false false) s) (listQ env (absS s) p all (fun _ => true)) :=
+  sim_listing env s p all false false _ hI hSo hD (fun _ _ _ _ _ _ _ => by simp)
+
+theorem sim_dirs (env : Env) (s : State) (p : Str) (all : Bool) (hI : Spec.Inv s) (hSo : Snap.Sorted s.entries)
+    (hD : all = true → RefineB.DepthOk s) :
+    Sim (mapVal .paths (Memfs.listing env p (mdOf all) true false) s)
+      (listQ env (absS s) p all (fun n => decide (n.kind = .dir))) :=
+  sim_listing env s p all true false _ hI hSo hD (fun _ _ k e _ _ _ => want_dirs_iff s k e)
+
+theorem sim_files (env : Env) (s : State) (p : Str) (all : Bool) (hI : Spec.Inv s) (hSo : Snap.Sorted s.entries)
+    (hOk : RefineA.EntriesOk s) (hD : all = true → RefineB.DepthOk s) :
+    Sim (mapVal .paths (Memfs.listing env p (mdOf all) false true) s)
+      (listQ env (absS s) p all (fun n => decide (n.kind = .file))) :=
+  sim_listing env s p all false true _ hI hSo hD (fun _ _ _ _ he _ _ => want_files_iff hOk he)
 
 end Rivia.Lemmas.RefineC
